@@ -31,8 +31,8 @@ EXTRA = {
  "C20": " Plus PANIC-type (every request-path panic carries an error or string), REC (recursion cycles tabled), VAL-1 (the call that validates a bias's props is not control dependent on a random draw: violated in processBiases, recorded as a known finding), ND-1 (a panic in a spawned goroutine bypasses the handler's recover: no goroutines, channels or process control on the request path).",
 }
 for _p in ["C01","C03","C04","C05","C07","C08","C09","C11","C12","C13","C14","C15","C16","C17","C18","C19","C20"]:
-    CHECKS[_p] = (E5[0] + ("; plus reference-free SSA rules " + SHORT[_p] if _p in SHORT else "") + ("" if _p == "C09" else ("; plus SHR-1/SHR-4 (no request-path write to memory that outlives the request)" if _p == "C20" else "; plus SHR-H (the handler layer keeps nothing from an earlier request)")),
-                  E5[1] + " The anchor set is closed under static callees, and the struct types those functions use are compared field by field (names, types, tags, codec methods) with reference declarations (E5-types)." + EXTRA.get(_p, "") +
+    CHECKS[_p] = (E5[0] + ("; plus reference-free SSA rules " + SHORT[_p] + ", OWN-3/OWN-4" if _p in SHORT else "; plus reference-free SSA rules OWN-3/OWN-4 (append forks, retained addresses of per-iteration variables)") + ("" if _p == "C09" else ("; plus SHR-1/SHR-4 (no request-path write to memory that outlives the request)" if _p == "C20" else "; plus SHR-H (the handler layer keeps nothing from an earlier request)")),
+                  E5[1] + " The anchor set is closed under static callees, and the struct types those functions use are compared field by field (names, types, tags, codec methods) with reference declarations (E5-types)." + EXTRA.get(_p, "") + " Plus, without references, on the " + ("whole request path" if _p == "C09" else "anchored functions") + ": OWN-3 (one slice value is the base of at most one append - the builtin or a call whose callee appends to that parameter, by summary - per activation path) and OWN-4 (the address of a variable declared outside a loop and assigned inside it - every range variable under the module's go 1.12 semantics - is not stored inside that loop, directly or through a callee that returns or stores its parameter)." +
                   ("" if _p == "C09" else (" As the property is stated for any sequence of requests, SHR-1/SHR-4 (nothing reachable from a handler writes memory that outlives the request) are part of the check." if _p == "C20" else " As the property is stated for every request, SHR-H (the functions of package main write nothing that outlives the request, so the value handed to the library carries nothing over from an earlier one) is part of the check.")) +
                   " Thorough tier: the same obligations, plus a self-test that applies this property's seeded breaking changes and up to four type-preserving mutants per anchored function in memory and records how many the rules report.", "2")
 
